@@ -420,7 +420,7 @@ def case_sampled(ctx, cls, rseed):
     g = gens()
     r = ctx.rng("c01sampled", cls, rseed)
     # pigeonhole m x n, all four variants: objects = injections (+ extra holes for relational variants)
-    for (m, n) in ((6, 8), (10, 10), (12, 10), (7, 9)):
+    for (m, n) in ((6, 8), (10, 10), (12, 10), (7, 9), (32, 32), (33, 32), (64, 65), (65, 64)):      # also around powers of two
         for functional in (False, True):
             for onto in (False, True):
                 desc = "PigeonholePrinciple(%d,%d,functional=%s,onto=%s)[%s]" % (m, n, functional, onto, cls)
@@ -464,7 +464,7 @@ def case_sampled(ctx, cls, rseed):
                             bad.append(({p[x] for x in rel} | {p[(i, h2)]}, "pigeon %d in two holes" % i))
                 S.check_sampled(ctx, "php", desc, F, good, bad, ("php-sampled", m, n, functional, onto, cls, rseed))
     # perfect matching on larger graphs: a planted perfect matching plus random edges
-    for n in (12, 20, 30):
+    for n in (12, 20, 30, 64, 128, 258):
         import cnfgen.graphs as cg
         G = cg.Graph(n)
         perm = r.sample(range(1, n + 1), n)
@@ -594,7 +594,7 @@ def case_sampled2(ctx, cls, rseed):
     g = gens()
     r = ctx.rng("c01sampled2", cls, rseed)
     # ---- graph pigeonhole on a bipartite graph with a planted left-saturating matching
-    for (L, R) in ((8, 10), (12, 12), (15, 11)):
+    for (L, R) in ((8, 10), (12, 12), (15, 11), (33, 32), (64, 64), (100, 128)):
         E = set()
         if L <= R:
             holes = r.sample(range(1, R + 1), L)
@@ -700,7 +700,7 @@ def case_sampled2(ctx, cls, rseed):
             pool += perturb(r, base, x.values(), 3)
         sampled_compare(ctx, "count", desc, F, pool, predc, ("count-large", M, pz, cls, rseed))
     # ---- subset cardinality on larger graphs: random edge labellings judged by the inequalities / equalities
-    for (L, R, d) in ((7, 7, 3), (10, 8, 4)):
+    for (L, R, d) in ((7, 7, 3), (10, 8, 4), (33, 32, 3), (64, 64, 4), (130, 128, 3)):
         E = sorted({(u, r.randint(1, R)) for u in range(1, L + 1) for _ in range(d)})
         B = BipartiteGraph(L, R)
         for e in E:
